@@ -311,6 +311,78 @@ def _bit_ranges(P, R, cls, rid):
     return n
 
 
+def _pairs_from_one_iteration(P, R, rel, rid):
+    """A loop that reads `key [= value]` items and stores them (`D[key] = value`): when the key is decided afresh in every iteration, so is
+    the value — on every path from the loop head to the store the value is bound.  A value bound on some paths only is the previous item's
+    (`(* A = "x", KEEP *)` read back as KEEP = "x").  Accumulators (`v += …`, `v = v + …`) and values not bound in the loop at all (context
+    carried on purpose) are not pairs and are left alone."""
+    from ..cfg import cfg_of
+    mod = P.module(rel)
+    funcs = list(mod.functions.values()) + [m for c in mod.classes.values() for m in c.methods.values()]
+    n = 0
+
+    def binds(cn, name):
+        a = cn.ast
+        if cn.kind == "stmt" and isinstance(a, (ast.Assign, ast.AnnAssign)):
+            ts = a.targets if isinstance(a, ast.Assign) else [a.target]
+            if any(isinstance(z, ast.Name) and z.id == name for t in ts for z in ast.walk(t)):
+                v = a.value
+                return v is not None and not any(isinstance(z, ast.Name) and z.id == name for z in ast.walk(v))
+        if cn.kind == "next" and isinstance(a, (ast.For, ast.AsyncFor)):
+            return any(isinstance(z, ast.Name) and z.id == name for z in ast.walk(a.target))
+        if cn.kind == "with" and isinstance(a, ast.With):
+            return any(i.optional_vars is not None and any(isinstance(z, ast.Name) and z.id == name for z in ast.walk(i.optional_vars)) for i in a.items)
+        return False
+
+    for f in funcs:
+        stores = [(L, S) for L in walk_local(f.node) if isinstance(L, (ast.While, ast.For)) for S in ast.walk(L)
+                  if isinstance(S, ast.Assign) and len(S.targets) == 1 and isinstance(S.targets[0], ast.Subscript)
+                  and isinstance(S.targets[0].slice, ast.Name) and isinstance(S.value, ast.Name)]
+        if not stores:
+            continue
+        cfg = cfg_of(f.node)
+        for L, S in stores:
+            head = next((c for c in cfg.nodes if c.ast is L and c.kind in ("test", "next")), None)
+            sn = next((c for c in cfg.nodes if c.ast is S), None)
+            if head is None or sn is None:
+                continue
+            inside = {id(z) for z in ast.walk(L)}
+            key, val = S.targets[0].slice.id, S.value.id
+
+            def stale(name):
+                """a path from the loop head to the store on which `name` is not bound, when the loop binds it somewhere"""
+                if not any(binds(c, name) for c in cfg.nodes if c.ast is not None and id(c.ast) in inside and c is not head) and not binds(head, name):
+                    return None
+                if binds(head, name):
+                    return False
+                seen, todo = set(), [x for x, lab in head.succ if lab in ("true", "item")]
+                while todo:
+                    x = todo.pop()
+                    if x.id in seen or x is head or x is cfg.raise_exit:
+                        continue
+                    seen.add(x.id)
+                    if x.ast is not None and id(x.ast) not in inside and x.kind != "join":
+                        continue
+                    if x is sn:
+                        return True
+                    if binds(x, name):
+                        continue
+                    todo.extend(y for y, lab in x.succ)
+                return False
+
+            if stale(key) is not False:
+                continue  # the key is not decided per iteration of this loop: not a pair read item by item
+            n += 1
+            st = stale(val)
+            if st is True:
+                R.bad(rid, "%s|stale value|%s" % (f.key, norm(S.targets[0])), f.loc(S),
+                      "%s stores `%s` with a key read in this iteration, but on some path through the loop body `%s` is not bound in this iteration: "
+                      "the item gets the value of the item before it" % (f.qualname, short(S, 50), val))
+            else:
+                R.ok(rid, "%s: `%s` key and value from one iteration" % (f.qualname, short(S, 40)), f.loc(S))
+    return n
+
+
 @register("C04",
           "Static analysis of the Verilog writer against the Verilog reader (narrow claim: the text written is accepted by the reader; which bit "
           "lands on which pin is a runtime property and is not decided): B1' path-sensitive delimiter balance — ( ) { } [ ] module/endmodule "
@@ -318,7 +390,7 @@ def _bit_ranges(P, R, cls, rid):
           "module; B2' every token constant the writer emits is one the reader's modules reference (layout tokens excepted); B4' VERILOG.* "
           "metadata keys stored by the reader minus keys read by the writer equals the reviewed table; B5' separators in item lists are "
           "updated on every iteration; hand-maintained position counters advance once per element; B6' the bounds of every bit range written next to a cable "
-          "name come from the one wire-to-bit-index function (position + lower_index) applied to wires of that same cable expression; B7' the readers of named and of positional port maps place a connection narrower than its port on the same end of the port (abstract alignment: wire k meets pin k, or pin k + max(len(pins) - len(wires), 0)).")
+          "name come from the one wire-to-bit-index function (position + lower_index) applied to wires of that same cable expression; B7' the readers of named and of positional port maps place a connection narrower than its port on the same end of the port (abstract alignment: wire k meets pin k, or pin k + max(len(pins) - len(wires), 0)); B8' (CFG paths within one iteration) in the reader's item loops a value stored under a key read in this iteration is bound in this iteration on every path to the store.")
 def check_c04(ctx, R):
     P = ctx.P
     R.rule("B1'", "delimiter balance of the Verilog writer")
@@ -412,6 +484,10 @@ def check_c04(ctx, R):
                       "%s and %s place the wires of a connection on the pins of a port differently (`%s` vs `%s`): a connection narrower than its port "
                       "lands on other bits depending on whether the port map is named or positional, and the writer can only write one of the two"
                       % (f_.qualname, ref_f.qualname, txt[:120], ref_txt[:120]))
+    R.rule("B8'", "a key and the value stored under it are read in the same iteration of the reader's item loops")
+    n8 = _pairs_from_one_iteration(P, R, VP, "B8'")
+    R.count("key / value stores in the Verilog reader's item loops (B8')", n8)
+    R.floor("key / value stores in the Verilog reader's item loops (B8')", 4)
     R.rule("B6'", "bit ranges: bounds go through the wire-to-bit-index function and belong to the cable whose name is written")
     n6 = _bit_ranges(P, R, B.cls, "B6'")
     R.count("range emissions (B6')", n6)
@@ -546,6 +622,54 @@ def _independent_keys(P, R, comp):
     R.floor("EBLIF.* presence tests in the writer (B10)", 3)
 
 
+def _merged_directions(P, R, pars):
+    """`.inputs a` followed by `.outputs a` makes `a` bidirectional.  The reader may turn a port it found by name into INOUT only after
+    looking at the direction the port has: a port found by name can also be an earlier bit of the same output bus (`.outputs r[0] r[1]`)."""
+    R.rule("B11", "a port found by name becomes INOUT only under a test of the direction it has")
+    n = 0
+    for f in (g for c in pars.classes.values() for g in c.all_funcs()):
+        once = {}
+        for a in walk_local(f.node):
+            if isinstance(a, ast.Assign) and len(a.targets) == 1 and isinstance(a.targets[0], ast.Name):
+                once.setdefault(a.targets[0].id, []).append(a.value)
+        for a in walk_local(f.node):
+            if not (isinstance(a, ast.Assign) and any(isinstance(t, ast.Attribute) and t.attr == "direction" for t in a.targets)
+                    and norm(a.value).split(".")[-1] == "INOUT"):
+                continue
+            tgt = next(t for t in a.targets if isinstance(t, ast.Attribute) and t.attr == "direction")
+            want = norm(tgt)
+            n += 1
+
+            def reads(e, depth=0):
+                for z in ast.walk(e):
+                    if isinstance(z, ast.Attribute) and norm(z) == want:
+                        return True
+                    if isinstance(z, ast.Name) and depth < 3 and len(once.get(z.id, ())) == 1 and reads(once[z.id][0], depth + 1):
+                        return True
+                return False
+            prev, ok = a, False
+            for p_ in parent_chain(a):
+                if isinstance(p_, ast.If) and reads(p_.test):
+                    ok = True
+                for fld in ("body", "orelse"):
+                    blk = getattr(p_, fld, None)
+                    if isinstance(blk, list) and any(x is prev for x in blk):
+                        for x in blk[: [y is prev for y in blk].index(True)]:
+                            if isinstance(x, ast.If) and not x.orelse and x.body and isinstance(x.body[-1], (ast.Continue, ast.Return, ast.Raise, ast.Break)) and reads(x.test):
+                                ok = True
+                if p_ is f.node:
+                    break
+                prev = p_
+            if ok:
+                R.ok("B11", "%s: `%s` under a test of %s" % (f.qualname, short(a, 40), want), f.loc(a))
+            else:
+                R.bad("B11", "%s|unconditional INOUT" % f.key, f.loc(a),
+                      "%s sets `%s` without looking at `%s`: every port that already exists (the earlier bits of the same output bus included) "
+                      "becomes bidirectional and is left unconnected" % (f.qualname, short(a, 40), want))
+    R.count("INOUT merges in the EBLIF reader (B11)", n)
+    R.floor("INOUT merges in the EBLIF reader (B11)", 1)
+
+
 def _open_actuals_stay_open(P, R, pars):
     R.rule("B9", "open actuals stay open: once the reader has recognised an actual as the `unconn` marker, no statement that joins the pin "
                  "to a net can run in the same iteration")
@@ -610,7 +734,7 @@ def _str_consts(node):
           "category the reader assigns has a branch in the writer's compose_instances (otherwise instances vanish on write); B4'' EBLIF.* keys "
           "stored by the reader minus keys read by the writer equals the reviewed table; B1'' every .model written is followed by .end on all "
           "paths; B6 the .conn wire merge iterates over a snapshot of the pin lists it empties; hand-maintained position counters advance once "
-          "per element; B7 a bus grown on demand to hold bit I is then read at bit I; B8 the (name, index) pair a bit of a bus is stored under comes from one parse of one token; B5b per category, the directive the writer emits under the flags it passes is the directive the reader turns into that category; B9 (CFG reachability within one iteration) once an actual is recognised as the `unconn` marker no statement that joins the pin to a net can run; B10 the presence tests of two different EBLIF.* keys on an element's data are not arms of one if / elif chain.")
+          "per element; B7 a bus grown on demand to hold bit I is then read at bit I; B8 the (name, index) pair a bit of a bus is stored under comes from one parse of one token; B5b per category, the directive the writer emits under the flags it passes is the directive the reader turns into that category; B9 (CFG reachability within one iteration) once an actual is recognised as the `unconn` marker no statement that joins the pin to a net can run; B10 the presence tests of two different EBLIF.* keys on an element's data are not arms of one if / elif chain; B11 the reader turns a port it found by name into INOUT only under a test of the direction the port has.")
 def check_c18(ctx, R):
     P = ctx.P
     R.rule("B2''", "directive agreement")
@@ -677,6 +801,7 @@ def check_c18(ctx, R):
     _kind_round_trip(P, R, pars, cc, ci)
     # B9: an actual recognised as the open marker is joined to nothing
     _open_actuals_stay_open(P, R, pars)
+    _merged_directions(P, R, pars)
     # B10: independent metadata is written independently
     _independent_keys(P, R, comp)
     # B4''
